@@ -1061,6 +1061,80 @@ def call_history_probes(rng, tier, out):
                    'at every step' % (ctor, shape, h), snippet)
 
 
+def plan_history_probes(rng, tier, out):
+    """Histories on ONE pyfftw operator that also contain init_fftw_plan('estimate'|'measure') and
+    clear_fftw_plan() at every position: the prepared plan is handed to pyfftw_call and executed as is, so its
+    direction / flags / axes / array pair must be those of the operator.  Every result is compared with numpy.fft
+    (DFT) or the numpy back-end of the same operator (FT)."""
+    cfgs = []
+    for cont, inv, sg, kind in itertools.product([False, True], [False, True], ['-', '+'], ['c2c', 'real', 'hc']):
+        if kind == 'hc' and sg != ('+' if inv else '-'):
+            continue
+        for shape, axes in ([([8], [0]), ([3, 4], [1]), ([4, 3], [0, 1])] if tier == 'quick'
+                            else [([8], [0]), ([5], [0]), ([30], [0]), ([3, 4], [1]), ([3, 4], [0]), ([4, 3], [0, 1]),
+                                  ([2, 3, 4], [2, 0])]):
+            cfgs.append((cont, inv, sg, kind, shape, axes))
+    for cont, inv, sg, kind, shape, axes in cfgs:
+        nd = len(shape)
+        alias = (kind == 'c2c' and not cont)
+        calls = 'abc' if alias else 'ab'
+        toks = calls + 'emk'
+        hists = [''.join(h) for n in (2, 3) for h in itertools.product(toks, repeat=n)
+                 if any(t in 'emk' for t in h) and any(t in calls for t in h)]
+        short = [h for h in hists if len(h) == 2]
+        long_ = [h for h in hists if len(h) == 3]
+        sel = short + (long_ if tier != 'quick' else rng.sample(long_, 5))
+        cls = ('FourierTransform' if cont else 'DiscreteFourierTransform') + ('Inverse' if inv else '')
+        dt = 'complex' if kind == 'c2c' else 'float'
+        extra = ''
+        if cont:
+            extra = ', shift=%r' % ([rng.random() < 0.5 for _ in axes] if kind != 'hc' else [True] * len(axes),)
+        elif alias:
+            extra = ', domain=sp' if inv else ', range=sp'
+        ctor = "odl.trafos.%s(sp, axes=%r, sign=%r, halfcomplex=%r, impl=IMPL%s)" % (cls, axes, sg, kind == 'hc', extra)
+        for h in sel:
+            snippet = (_PRE + "import pyfftw\nsp = odl.uniform_discr(%r, %r, %r, dtype=%s)\n"
+                       "axes = %r\nrs = np.random.RandomState(%d)\n"
+                       "IMPL = 'numpy'; refop = %s\n"
+                       "pyfftw.forget_wisdom()\nIMPL = 'pyfftw'; op = %s\n"
+                       "def np_ref(a):\n"
+                       "    N = np.prod([sp.shape[i] for i in axes])\n"
+                       "    if %r:      # DiscreteFourierTransformInverse\n"
+                       "        if %r: return np.fft.irfftn(a, axes=axes, s=[sp.shape[i] for i in axes])\n"
+                       "        r = np.fft.ifftn(a, axes=axes) if %r == '+' else np.fft.fftn(a, axes=axes) / N\n"
+                       "        return r.real if %r else r\n"
+                       "    if %r: return np.fft.rfftn(a, axes=axes)\n"
+                       "    return np.fft.fftn(a, axes=axes) if %r == '-' else np.fft.ifftn(a, axes=axes) * N\n"
+                       "def new_input():\n"
+                       "    shp = op.domain.shape\n"
+                       "    if op.domain.is_real: return rs.randint(-4, 5, shp).astype(float)\n"
+                       "    if %r:      # half-complex inverse: a genuine half spectrum\n"
+                       "        return np.fft.rfftn(rs.randint(-4, 5, sp.shape).astype(float), axes=axes)\n"
+                       "    return rs.randint(-4, 5, shp) + 1j * rs.randint(-4, 5, shp)\n"
+                       "errs = []\n"
+                       "for kind in %r:\n"
+                       "    if kind == 'e': op.init_fftw_plan('estimate'); continue\n"
+                       "    if kind == 'm': op.init_fftw_plan('measure'); continue\n"
+                       "    if kind == 'k': op.clear_fftw_plan(); continue\n"
+                       "    x0 = new_input(); x = op.domain.element(x0.copy())\n"
+                       "    want = np.asarray(refop(refop.domain.element(x0.copy()))) if %r else np_ref(x0)\n"
+                       "    if kind == 'a':\n        res = op(x)\n"
+                       "    elif kind == 'b':\n        res = op.range.element(); op(x, out=res)\n"
+                       "    else:\n        op(x, out=x); res = x\n"
+                       "    errs.append(float(np.abs(np.asarray(res) - want).max() / (1 + np.abs(want).max())))\n"
+                       "observed = errs; expected = 0.0\nok = max(errs) <= 1e-10\n"
+                       % ([0.0] * nd, [float(n) / 2 for n in shape], shape, dt, axes, rng.randint(0, 10 ** 6),
+                          ctor, ctor, inv, kind == 'hc', sg, kind == 'real', kind == 'hc', sg,
+                          inv and kind == 'hc', h, cont))
+            key = 'pyfftw-prepared-plan-history-%s' % ('FT' if cont else 'DFT')
+            if (not cont) and inv and kind == 'real' and any(t in 'em' for t in h):
+                key = 'dft-inverse-real-nonhc-init-plan-raises'
+            _probe(out, key,
+                   '%s on shape %s: history %s (a = op(x), b = op(x, out=y), c = op(x, out=x), e/m = '
+                   'init_fftw_plan(estimate/measure), k = clear_fftw_plan()) equals the reference at every call'
+                   % (ctor.replace('IMPL', "'pyfftw'"), shape, h), snippet)
+
+
 def hc_inverse_input_probes(rng, tier, out):
     """The half-complex inverse leaves its input element alone and gives the same (right) result when the
     same element is passed again; 1-d sizes where FFTW's c2r algorithms differ, and 2-d."""
@@ -1094,6 +1168,7 @@ def probes(rng, tier):
     grid_probes(rng, tier, out)
     aliased_inplace_probes(rng, tier, out)
     call_history_probes(rng, tier, out)
+    plan_history_probes(rng, tier, out)
     hc_inverse_input_probes(rng, tier, out)
     wavelet_axes_adjoint_probes(rng, tier, out)
     fourier_adjoint_probes(rng, tier, out)
